@@ -1,4 +1,5 @@
 import Proofs.Legacy
+import Proofs.GroupObj0
 import Proofs.Toy
 import Proofs.StepsTie
 /-!
@@ -15,10 +16,22 @@ Objects of the statements
 * Domain: p an odd prime (`[Fact p.Prime]`, `p ≠ 2`), all a, b (nothing is assumed about Δ: Mathlib's group is the group
   of nonsingular points), all integer triples.
 
+* `Jac.PJRep0 / PtRep0` (section 3b) — the same, but a stored `PointJacobi` may ITSELF be the identity (Y = 0 or Z = 0,
+  e.g. `PointJacobi(c, 0, 0, 1)`, `(x, y, 0)`): the library never produces such objects (identity results are the
+  INFINITY singleton) but accepts them, and C06 says "including the identity … in any internal representation".
+
 **What is partial.**  Theorems named `…_partial` carry the hypothesis `Jac.NoOrder2 H` (N2T): the operands denote
-elements of a subgroup H without an element of order two (H = ⊤ when x³+ax+b has no root — `Jac.noOrder2_top_of_no_root` —
-i.e. the 16 named curves of prime order; H = ⟨G⟩ on SECP112r2).  The FULL statement (for every point of every curve)
-is FALSE for the code: open known finding K1, `two_torsion_counterexample` below.  Everything else is unconditional.
+elements of a subgroup H without an element of order two.  Where N2T is available:
+* H = ⊤ (every point of the curve) when x³+ax+b has no root mod p — `Jac.noOrder2_top_of_no_root`; this is PROVED only
+  for the toy curve used in the examples (Proofs/Toy.lean);
+* H = ⊤ from the SEC 2 / FIPS fact #E(𝔽_p) = n with n odd, when that fact is a hypothesis anyway
+  (`GroupInterface.noOrder2_top_of_card`, `Ctx.ofCard`); root-freeness of x³+ax+b is NOT proved for the named curves;
+* H = ⟨G⟩ for a base point with n • G = 0, n odd, with no further assumption (`GroupInterface.Ctx.n2t`): so on a NAMED
+  curve (all 17, SECP112r2 included) the theorems below speak, unconditionally in #E, about the points of ⟨G⟩.
+The FULL statement (for every point of every curve) is FALSE for the code: open known finding K1,
+`two_torsion_counterexample` below.  Everything else is unconditional.
+Domain of the object-level statements: stored coordinates reduced to [0, p) (kernel level: |c| < p); what the code does
+with unreduced constructor arguments is covered by the correspondence only (harness ASSUMPTIONS).
 -/
 namespace C06
 open WeierstrassCurve WeierstrassCurve.Jacobian Curve Jac
@@ -221,6 +234,69 @@ theorem legacy_eq_correct_partial (hH : NoOrder2 H) {A : AffPt} {other : Pt} {g 
     (hA : AffRep p a b H A g) (hQ : PtRep p a b H other h) : affEq A other = true ↔ g = h :=
   affEq_iff hH hA hQ
 
+/-! ## 3b. identity-valued `PointJacobi` objects (Y = 0 or Z = 0): "including the identity" at object level -/
+
+/-- `P == Q` on ALL objects (after fix F13): an identity-valued `PointJacobi` equals exactly the other identity-valued
+objects and INFINITY (e.g. `(0,0,1) == (5,0,1)`, `(0,0,0) ≠ G`); otherwise equality of the denoted elements -/
+theorem eq_iff_all_partial (hH : NoOrder2 H) {P : PJ} {other : Pt} {g h}
+    (hP : PJRep0 p a b H P g) (hQ : PtRep0 p a b H other h) : pjEq P other = true ↔ g = h :=
+  pjEq_iff0 hH hP hQ
+
+/-- `==` is an equivalence relation on ALL point values, identity-valued objects included -/
+theorem eq_equivalence_all_partial (hH : NoOrder2 H) {A B C : Pt} {g h k}
+    (hA : PtRep0 p a b H A g) (hB : PtRep0 p a b H B h) (hC : PtRep0 p a b H C k) :
+    ptEq A A = true ∧ (ptEq A B = true → ptEq B A = true) ∧
+      (ptEq A B = true → ptEq B C = true → ptEq A C = true) := by
+  refine ⟨(ptEq_iff0 hH hA hA).mpr rfl, fun h1 => (ptEq_iff0 hH hB hA).mpr ((ptEq_iff0 hH hA hB).mp h1).symm,
+    fun h1 h2 => (ptEq_iff0 hH hA hC).mpr (((ptEq_iff0 hH hA hB).mp h1).trans ((ptEq_iff0 hH hB hC).mp h2))⟩
+
+/-- `P + Q` on ALL objects (the `self == INFINITY` / `other == INFINITY` pass-through of `__add__`, and through
+`__radd__` for INFINITY / legacy points on the left) -/
+theorem add_all_correct_partial (hp2 : p ≠ 2) (hH : NoOrder2 H) {A B : Pt} {g h}
+    (hA : PtRep0 p a b H A g) (hB : PtRep0 p a b H B h) :
+    (∃ R, ptAdd A B = .ok R ∧ PtRep0 p a b H R (g + h)) ∧ (ptEq A B = true ↔ g = h) :=
+  ⟨ptAdd_correct0 hp2 hH hA hB, ptEq_iff0 hH hA hB⟩
+
+/-- `double()`, `-P`, `scale()`, `to_affine()` on ALL `PointJacobi` objects: an identity-valued object doubles to
+INFINITY, negates to an identity-valued object, scales without raising (`inverse_mod(0, p) = 0`) and converts to INFINITY -/
+theorem unary_all_correct_partial (hH : NoOrder2 H) {P : PJ} {g} (hP : PJRep0 p a b H P g) :
+    PtRep p a b H (pjDouble P) (g + g) ∧ PJRep0 p a b H (pjNeg P) (-g) ∧
+      (∃ S, pjScale P = .ok S ∧ PJRep0 p a b H S g ∧ S.z = 1) ∧
+      (∃ R, pjToAffine P = .ok R ∧ PtRep p a b H R g) := by
+  obtain ⟨S, e, hS, z, _⟩ := pjScale_correct0 hP
+  exact ⟨pjDouble_correct0 hH hP, pjNeg_correct0 hP, ⟨S, e, hS, z⟩, pjToAffine_correct0 hP⟩
+
+/-- representation independence of `double`, unary minus, `==` and `to_affine` (for `+` see section 4): operands with
+equal denotations — any scaling, identity held as INFINITY or as an identity-valued object — give results with equal
+denotations, hence `==` results, and `to_affine()` gives the same value -/
+theorem representation_independence_unary_partial (hH : NoOrder2 H) {P P' : PJ} {Q Q' : Pt} {g h}
+    (hP : PJRep0 p a b H P g) (hP' : PJRep0 p a b H P' g) (hQ : PtRep0 p a b H Q h) (hQ' : PtRep0 p a b H Q' h) :
+    ptEq (pjDouble P) (pjDouble P') = true ∧ pjEq (pjNeg P) (.jac (pjNeg P')) = true ∧
+      pjEq P Q = pjEq P' Q' ∧
+      (∃ R R', pjToAffine P = .ok R ∧ pjToAffine P' = .ok R' ∧ ptEq R R' = true ∧
+        (R = .infinity ↔ R' = .infinity)) := by
+  refine ⟨(ptEq_iff hH (pjDouble_correct0 hH hP) (pjDouble_correct0 hH hP')).mpr rfl,
+    (pjEq_iff0 hH (pjNeg_correct0 hP) (show PtRep0 p a b H (.jac (pjNeg P')) (-g) from pjNeg_correct0 hP')).mpr rfl,
+    ?_, ?_⟩
+  · rw [Bool.eq_iff_iff, pjEq_iff0 hH hP hQ, pjEq_iff0 hH hP' hQ']
+  · obtain ⟨R, e, hR⟩ := pjToAffine_correct0 hP
+    obtain ⟨R', e', hR'⟩ := pjToAffine_correct0 hP'
+    refine ⟨R, R', e, e', (ptEq_iff hH hR hR').mpr rfl, ?_⟩
+    have i1 : ∀ {X : Pt} {k}, PtRep p a b H X k → (X = .infinity ↔ k = 0) := by
+      intro X k hX
+      cases X with
+      | infinity => exact ⟨fun _ => hX, fun _ => rfl⟩
+      | jac J => exact ⟨fun e => Pt.noConfusion e, fun e => absurd e (good_ne_zero hX.2.2)⟩
+      | aff A => exact ⟨fun e => Pt.noConfusion e, fun e => absurd e (AffRep.ne_zero hX)⟩
+    rw [i1 hR, i1 hR']
+
+/-- F13 witnesses on the toy curve, evaluated: `(0,0,0) == G` is False, `(0,0,1) == (5,0,1)` is True, both orders -/
+theorem f13_witnesses :
+    pjEq ⟨toyC, 0, 0, 0, none, false⟩ (.jac toyG) = false ∧ pjEq toyG (.jac ⟨toyC, 0, 0, 0, none, false⟩) = false ∧
+    pjEq ⟨toyC, 0, 0, 1, none, false⟩ (.jac ⟨toyC, 5, 0, 1, none, false⟩) = true ∧
+    pjEq ⟨toyC, 5, 0, 1, none, false⟩ (.jac ⟨toyC, 0, 0, 1, none, false⟩) = true ∧
+    pjEq ⟨toyC, 3, 6, 0, none, false⟩ .infinity = true := by decide
+
 /-! ## 4. representation independence -/
 
 /-- two stored objects denoting the same element have identical canonical coordinates -/
@@ -329,5 +405,19 @@ example : ∃ g, PJRep 11 1 6 ⊤ toyG g ∧ PJRep 11 1 6 ⊤ ⟨toyC, 8, 1, 2, 
   simp only [toyG, cast3_mk, Matrix.cons_val_zero, Matrix.cons_val_one, Matrix.cons_val_two, Matrix.head_cons,
     Matrix.tail_cons]
   decide
+
+
+/-- identity-valued objects satisfy `PJRep0` and the object theorems apply to them: (0,0,1) + G = G, (3,6,0) == INFINITY -/
+example : ∃ g, PJRep0 11 1 6 ⊤ ⟨toyC, 0, 0, 1, none, false⟩ 0 ∧ PJRep0 11 1 6 ⊤ ⟨toyC, 3, 6, 0, none, false⟩ 0 ∧
+    PJRep0 11 1 6 ⊤ toyG g ∧
+    (∃ R, pjAdd ⟨toyC, 0, 0, 1, none, false⟩ (.jac toyG) = .ok R ∧ PtRep0 11 1 6 ⊤ R (0 + g)) ∧
+    (pjEq ⟨toyC, 3, 6, 0, none, false⟩ .infinity = true) := by
+  obtain ⟨g, hg⟩ := toyG_rep
+  have z1 : PJRep0 11 1 6 ⊤ ⟨toyC, 0, 0, 1, none, false⟩ 0 :=
+    pjRep0_zero toyC_on ⟨⟨by decide, by decide⟩, ⟨by decide, by decide⟩, ⟨by decide, by decide⟩⟩ (Or.inl rfl)
+  have z2 : PJRep0 11 1 6 ⊤ ⟨toyC, 3, 6, 0, none, false⟩ 0 :=
+    pjRep0_zero toyC_on ⟨⟨by decide, by decide⟩, ⟨by decide, by decide⟩, ⟨by decide, by decide⟩⟩ (Or.inr rfl)
+  exact ⟨g, z1, z2, hg.rep0, (add_all_correct_partial (by decide) toy_n2t (A := .jac _) (B := .jac toyG) z1 hg.rep0).1,
+    (eq_iff_all_partial toy_n2t z2 (show PtRep0 11 1 6 ⊤ .infinity 0 from rfl)).mpr rfl⟩
 
 end C06
